@@ -60,7 +60,7 @@ def _cases(draw, tier):
         return {'kind': 'large', 'inst': inst, 'picks': picks}
     cls = draw(st.sampled_from(['generic', 'shared_tight', 'shared_tight', 'heavy_ties',
                                 'zero_capacity', 'zero_capacity', 'lower_quotas', 'two_agent',
-                                'more_lecturers']))
+                                'more_lecturers', 'lecturer_ties_only']))
     inst = draw(strategies.instances(strategies.SIZES[tier], two_sided=True, cls=cls))
     if kind == 'lp' and pct(draw) < 20:
         # hundreds of students on one hospital / lecturer: the matching comes from real CBC
